@@ -17,7 +17,7 @@ CORS = [None, '', '*', 'https://a.example', 'https://a.example, https://b.exampl
         ' * ', 'https://a.example ,https://b.example']
 ORIGINS = [None, 'https://a.example', 'https://b.example', 'https://evil.example', 'HTTPS://A.EXAMPLE', 'https://a.example.evil.example',
            'null', '*', 'https://a.example,https://b.example', 'https://x.example.org', 'http://one.com', 'http://one.com/*',
-           'https://b.example ']
+           'https://b.example ', 'http://one.com:8080', 'http://one.com:80', 'http://one.com:8000', 'https://a.example:443', 'https://a.example:4', 'https://a.example0', 'https://a.exampl', 'http://one.co']
 
 
 def norm(name):
